@@ -14,7 +14,6 @@ from props import c09
 TOL = c09.TOL
 IMPORTS = c09.IMPORTS
 SCP_KEY = "C08:scp-delay-applied-twice@methane_scp.calculate_monthly_scp_caloric_production"
-GROWTH_KEY = "C08:growth-factors-not-cut-to-horizon@seaweed.get_growth_rates"
 MONTHS = ["JAN", "FEB", "MAR", "APR", "MAY", "JUN", "JUL", "AUG", "SEP", "OCT", "NOV", "DEC"]
 
 COUNTRY_OPTS = {
@@ -85,7 +84,8 @@ def gen_synthetic(rng):
         c["RATIO_GRASSES_YEAR%d" % y] = rng.choice([1.0, 0.0, dy(rng, 0, 2)])
     pct = rng.choice([100.0, dy(rng, 0, 100)])
     c["PERCENT_STORED_FOOD_TO_USE"] = pct
-    c["RATIO_STOCKS_UNTOUCHED"] = rng.choice([0.0, min(1.0, dy(rng, 0, 1)) * pct / 100])
+    # strictly below pct/100 (or equal only at pct = 100, where 100/100 is exact): the code asserts pct/100 >= ratio
+    c["RATIO_STOCKS_UNTOUCHED"] = rng.choice([0.0, (1.0 if pct == 100.0 else min(63 / 64, dy(rng, 0, 1))) * pct / 100])
     r = rng.random()
     if r < 0.3:
         fish = [100.0] * N
@@ -148,10 +148,10 @@ def series_terms(i, o):
     if "growth" in o:
         # exact 30th powers of 53-bit floats are ~1600-bit rationals: compare a spread of ten months (the map is pointwise)
         daily, obs = i["seaweed"]["daily"], o["growth"]
-        n = len(daily)
-        idx = sorted(set([0, 1, n - 1] + [(k * 37 + 5) % n for k in range(7)])) if n and len(obs) == n else list(range(n))
-        t.append(("growth", f"if Nat.eqb {cnat(len(obs))} {cnat(n)} then series_code {TOL} (seaweed_growth "
-                            f"{fql([daily[k] for k in idx])}) {fql([obs[k] for k in idx] if len(obs) == n else obs)} else 2%nat"))
+        n = min(i["N"], len(daily))     # proved length of the model series (seaweed_growth_length)
+        idx = sorted(set([0, 1, n - 1] + [(k * 37 + 5) % n for k in range(7)])) if n and len(obs) == n else []
+        t.append(("growth", f"if Nat.eqb {cnat(len(obs))} (Nat.min {N} {cnat(len(daily))}) then series_code {TOL} "
+                            f"(map growth_factor {fql([daily[k] for k in idx])}) {fql([obs[k] for k in idx])} else 2%nat"))
     if "stored" in o:
         s = i["stored"]
         if s["add"]:
@@ -182,8 +182,7 @@ def run(ctx):
         "methane SCP: the code prepends the delay list twice (pinned by tests/test_methane_scp.py); the theorem that is "
         "proved says 2 x delay (c08_scp_two_delays), the property's reading is refuted (c08_scp_delay_refuted) and the "
         "audit reports it under key " + SCP_KEY + ". The correspondence accepts either reading of the SCP delay, so a "
-        "repair of that defect does not break the tie. Seaweed growth factors are returned for all 120 table columns "
-        "whatever the horizon (key " + GROWTH_KEY + "); the optimiser reads the first NMONTHS.")
+        "repair of that defect does not break the tie.")
     ctx.check_props()
     bok, bad, out = ctx.build(["Model/SeriesCheck.vo"])
     if not bok:
@@ -293,7 +292,7 @@ def audit(ctx):
         if f["kind"] in seen:
             continue
         seen.add(f["kind"])
-        key = {"scp-delay-applied-twice": SCP_KEY, "length-growth": GROWTH_KEY}.get(f["kind"], "C08:" + f["kind"])
+        key = SCP_KEY if f["kind"] == "scp-delay-applied-twice" else "C08:" + f["kind"]
         ctx.violation(key, f["what"], {"kind": "counterexample", "runner": "c08_audit", **f})
     if res["failures"]:
         ctx.log("audit failure kinds:", res["failure_kinds"])
